@@ -902,7 +902,10 @@ def coq_xcell(v):
 
 XVALS = ["a", "b", "", " ", "Unnamed: 3", "x y", 1, 0, -7, 2.5, 1.0, 1e20, True, False,
          datetime.datetime(2024, 1, 2, 3, 4, 5), datetime.datetime(2024, 1, 2), datetime.date(2023, 12, 31),
-         datetime.time(12, 30), datetime.timedelta(hours=1, minutes=2), "#DIV/0!", "\u00a0", "Total"]
+         datetime.time(12, 30), datetime.timedelta(hours=1, minutes=2), "#DIV/0!", "\u00a0", "Total",
+         # wall-clock values that do not exist / are ambiguous in zones with daylight saving, and a fractional second
+         datetime.datetime(2024, 3, 31, 2, 30), datetime.datetime(2024, 3, 10, 2, 15), datetime.datetime(2024, 10, 27, 2, 30),
+         datetime.datetime(2024, 11, 3, 1, 30), datetime.datetime(2024, 6, 1, 11, 59, 59, 991000), datetime.time(23, 59, 59, 500000)]
 
 
 def rxgrid(rng, mode):
@@ -1784,6 +1787,65 @@ def wrapper_cases(ctx, B):
                                     {"format": "ods", "sheet_xml": nd_xml(tb), "got": repr(None if tabs is None else tabs[0]), "want": repr(spec)})
 
 
+def env_cases(ctx):
+    """a representative sample of generated files per format for common.env_sweep: (format, payload)"""
+    rng = ctx.rng
+    set_selfclose("never")
+    out = []
+    k = ctx.n(12, 40)
+    for i in range(k):
+        d = rdoc(rng, nested=(i % 4 == 3))
+        out.append(("docx", docx_file(docx_r_body(d))))
+        out.append(("odt", odf_file(nd_xml(odt_r_body(d)), "text")))
+        gs = [rfgrid(rng) for _ in range(rng.randint(1, 2))]
+        out.append(("odp", odp_file([odf_r_ftable(g) for g in gs])))
+        out.append(("pptx", pptx_file([pptx_r_frame(g) for g in gs])))
+        out.append(("ods", ods_file([ods_r_sheet(rogrid(rng), i % 2 == 1) for _ in range(rng.randint(1, 2))])))
+        out.append(("html", ("<!DOCTYPE html>" + html_src(html_r_root("\n", rhdoc(rng, "simple")))).encode("utf-8")))
+        body = "".join("<table>" + "".join("<tr>" + "".join("<td>" + htmlmod.escape(rtext(rng, 0, 3, HALPHA), quote=False) + "</td>" for _ in range(3)) + "</tr>"
+                                           for _ in range(2)) + "</table>" for _ in range(2))
+        out.append(("epub", epub_file([xhtml(body)])))
+        out.append(("rtf", rtf_doc([[[rtext(rng, 1, 3, "abcXYZ") for _ in range(3)] for _ in range(2)] for _ in range(2)],
+                                   "\\pard " + "long separating paragraph " * 6 + "\\par\n").encode("utf-8")))
+    # spreadsheets with date-times (also wall-clock values inside daylight-saving gaps) and other typed values
+    import openpyxl
+    for i in range(k):
+        wb = openpyxl.Workbook()
+        wb.remove(wb.active)
+        for si in range(rng.randint(1, 2)):
+            ws = wb.create_sheet(f"S{si}")
+            g = rxgrid(rng, "clean" if i % 2 == 0 else "any")
+            if i % 3 == 0:
+                g.append([datetime.datetime(2024, 3, 31, 2, 30), datetime.datetime(2024, 3, 10, 2, 15), datetime.datetime(2024, 11, 3, 1, 30)][:len(g[0])])
+            for ri, row in enumerate(g, 1):
+                for ci, v in enumerate(row, 1):
+                    if v is not None:
+                        ws.cell(row=ri, column=ci, value=v)
+        b = io.BytesIO()
+        wb.save(b)
+        out.append(("xlsx", b.getvalue()))
+    return out
+
+
+def env_result(case):
+    """canonical, comparable result of the implementation on an env_cases item"""
+    fmt, data = case
+    from sharepoint2text.parsing.extractors.ms_modern.docx_extractor import read_docx
+    from sharepoint2text.parsing.extractors.ms_modern.pptx_extractor import read_pptx
+    from sharepoint2text.parsing.extractors.ms_modern.xlsx_extractor import read_xlsx
+    from sharepoint2text.parsing.extractors.open_office.odt_extractor import read_odt
+    from sharepoint2text.parsing.extractors.open_office.odp_extractor import read_odp
+    from sharepoint2text.parsing.extractors.open_office.ods_extractor import read_ods
+    from sharepoint2text.parsing.extractors.html_extractor import read_html
+    from sharepoint2text.parsing.extractors.epub_extractor import read_epub
+    from sharepoint2text.parsing.extractors.ms_legacy.rtf_extractor import read_rtf
+    reader = {"docx": read_docx, "pptx": read_pptx, "xlsx": read_xlsx, "odt": read_odt, "odp": read_odp, "ods": read_ods,
+              "html": read_html, "epub": read_epub, "rtf": read_rtf}[fmt]
+    c = next(iter(reader(io.BytesIO(data))))
+    tabs, dims = tables_of(c)
+    return repr(([[[val_canon(v) for v in r] for r in t] for t in tabs], dims))
+
+
 # ----------------------------------------------------------------------------- the check
 SC_MODES = ["never", "always", "random"]
 PRE = ("From Coq Require Import ZArith List Bool.\nFrom S2T Require Import Lib.PyStr C13.Model C13.Corr C13.ProofsHtml "
@@ -2038,6 +2100,30 @@ def run(ctx):
             else:
                 ctx.finding("ods-sheet-grid-mismatch", f"ODS: sheet data differs from the source grid: got {tabs[0]!r} want {spec!r}",
                             {"format": "ods", "grid": g, "rle": rle_mode, "got": tabs[0], "want": spec})
+    # several sheets in one file, the later ones repeating the first (second occurrence of the same content)
+    set_selfclose("never")
+    for i in range(n // 6):
+        gs = [rogrid(rng)]
+        for _ in range(rng.randint(1, 2)):
+            gs.append([list(r) for r in gs[0]] if rng.random() < 0.6 else rogrid(rng))
+        tbls, tabs, dims, err = ods_run(ods_file([ods_r_sheet(g, i % 2 == 1) for g in gs]))
+        ctx.case(("ods-multi", repr(gs)), bool(tabs), "ods:multi-sheet")
+        if tabs is None or len(tabs) != len(gs):
+            ctx.finding("ods-sheet-count-mismatch", f"ODS: {len(gs)} sheets in, {None if tabs is None else len(tabs)} tables out ({err})", {"format": "ods", "grids": repr(gs)})
+            continue
+        for si, (g, tb, got) in enumerate(zip(gs, tbls, tabs)):
+            it, ft = int_table(tb, {"table:number-columns-repeated", "table:number-rows-repeated", "text:c"}), flt_table(tb)
+            (b_ods_r if i % 2 == 1 else b_ods_p).add(
+                f"({coq_int_table(it)}, {coq_flt_table(ft)}, {coq_list([coq_list([coq_ocell(c) for c in r]) for r in g])}, {coq_nd(tb)}, (Some {coq_vgrid(got)}))",
+                ("ods-multi", si))
+            spec = [[ocell_spec(c) for c in r] for r in g]
+            while spec and all(v is None for v in spec[-1]):
+                spec.pop()
+            w = max((max((j + 1 for j, v in enumerate(r) if v is not None), default=0) for r in spec), default=0)
+            spec = [(r + [None] * w)[:w] for r in spec]
+            if [[val_canon(v) for v in r] for r in got] != [[val_canon(v) for v in r] for r in spec]:
+                ctx.finding("ods-sheet-grid-mismatch", f"ODS: sheet {si + 1} of {len(gs)} differs from its source grid: got {got!r} want {spec!r}",
+                            {"format": "ods", "sheet_index": si, "grids": repr(gs), "got": repr(got), "want": repr(spec)})
     # hand-made sheets: row repeats, annotations, spans, covered cells
     b_ods_t = batch("odstree", "corr_ods_tree", "list (str * option Z) * list (str * fres) * xml * option (list (list val))")
     def scell(t, rep=None, extra=None):
@@ -2219,32 +2305,40 @@ def run(ctx):
 
     # ---------------- XLS
     b_xls = batch("xls", "corr_xls", "list (list lcell) * list (list val) * (nat * nat)")
+    import xlrd
+    from xlrd.sheet import Cell
     for i in range(n // 2):
-        r, c = rng.randint(1, 4), rng.randint(1, 4)
-        g = [[xls_cells(rng) for _ in range(c)] for _ in range(r)]
-        if i % 2 == 0:
-            import xlrd
-            from xlrd.sheet import Cell
-            g[0] = [Cell(xlrd.XL_CELL_TEXT, f"h{j}") for j in range(c)]
-        per, tabs, dims = xls_run([g])
-        pg, t, dm = per[0], tabs[0], dims[0]
-        b_xls.add("(" + coq_list([coq_list([f"{{| lc_native := {coq_val(nv)}; lc_header := {coq_str(hs)} |}}" for nv, hs in row]) for row in pg])
-                  + f", {coq_vgrid(t)}, ({dm[0]}%nat, {dm[1]}%nat))", ("xls", repr(pg)))
-        ctx.case(("xls", repr(pg)), bool(t), "xls")
-        want = [[hs for _, hs in pg[0]]] + [[nv for nv, _ in row] for row in pg[1:]]
-        if [[val_canon(v) for v in row] for row in t] != [[val_canon(v) for v in row] for row in want]:
-            heads = [hs for _, hs in pg[0]]
-            if len(pg) == 1:
-                ctx.finding("xls-header-only-sheet-returns-empty-table", "XLS: a sheet with a single row yields get_table() == [] (rows are stored as dicts of the rows below the header)",
-                            {"format": "xls", "grid": repr(pg), "got": repr(t), "want": repr(want)})
-            elif len(set(heads)) != len(heads):
-                ctx.finding("xls-duplicate-header-text-collapses-columns", "XLS: columns whose first-row texts are equal collapse into one (rows are dicts keyed by header text); the last value wins",
-                            {"format": "xls", "grid": repr(pg), "got": repr(t), "want": repr(want)})
-            else:
-                ctx.finding("xls-sheet-grid-mismatch", f"XLS: sheet table differs from the source grid: got {t!r} want {want!r}",
-                            {"format": "xls", "grid": repr(pg), "got": repr(t), "want": repr(want)})
-        if (dm[0], dm[1]) != (len(t), max((len(x) for x in t), default=0)):
-            ctx.finding("xls-get_dim-not-shape", f"XLS: get_dim() {dm} is not the shape of get_table()", {"format": "xls", "grid": repr(pg)})
+        # a workbook of 1-3 sheets; later sheets often repeat the header texts of the first (one sheet per month/region)
+        wb = []
+        for si in range(rng.choice([1, 2, 2, 3])):
+            r, c = rng.randint(1, 4), rng.randint(1, 4)
+            g = [[xls_cells(rng) for _ in range(c)] for _ in range(r)]
+            if i % 2 == 0:
+                g[0] = [Cell(xlrd.XL_CELL_TEXT, f"h{j}") for j in range(c)]
+            elif si > 0 and rng.random() < 0.6:
+                g[0] = [Cell(wb[0][0][j].ctype, wb[0][0][j].value) if j < len(wb[0][0]) else xls_cells(rng) for j in range(c)]
+            wb.append(g)
+        per, tabs, dims = xls_run(wb)
+        for si, (pg, t, dm) in enumerate(zip(per, tabs, dims)):
+            b_xls.add("(" + coq_list([coq_list([f"{{| lc_native := {coq_val(nv)}; lc_header := {coq_str(hs)} |}}" for nv, hs in row]) for row in pg])
+                      + f", {coq_vgrid(t)}, ({dm[0]}%nat, {dm[1]}%nat))", ("xls", si, repr(per)))
+            ctx.case(("xls", si, repr(per)), bool(t), "xls:sheet%d" % min(si, 2))
+            want = [[hs for _, hs in pg[0]]] + [[nv for nv, _ in row] for row in pg[1:]]
+            if [[val_canon(v) for v in row] for row in t] != [[val_canon(v) for v in row] for row in want]:
+                heads = [hs for _, hs in pg[0]]
+                if len(pg) == 1:
+                    ctx.finding("xls-header-only-sheet-returns-empty-table", "XLS: a sheet with a single row yields get_table() == [] (rows are stored as dicts of the rows below the header)",
+                                {"format": "xls", "grid": repr(pg), "got": repr(t), "want": repr(want)})
+                elif len(set(heads)) != len(heads):
+                    ctx.finding("xls-duplicate-header-text-collapses-columns", "XLS: columns whose first-row texts are equal collapse into one (rows are dicts keyed by header text); the last value wins",
+                                {"format": "xls", "grid": repr(pg), "got": repr(t), "want": repr(want)})
+                else:
+                    ctx.finding("xls-sheet-grid-mismatch", f"XLS: sheet {si + 1} of {len(wb)} differs from its source grid: got {t!r} want {want!r} (all sheets: {[[hs for _, hs in q[0]] for q in per]!r})",
+                                {"format": "xls", "sheet_index": si, "workbook": repr(per), "got": repr(t), "want": repr(want)})
+            if (dm[0], dm[1]) != (len(t), max((len(x) for x in t), default=0)):
+                ctx.finding("xls-get_dim-not-shape", f"XLS: get_dim() {dm} is not the shape of get_table()", {"format": "xls", "grid": repr(pg)})
+        if len(tabs) != len(wb):
+            ctx.finding("xls-sheet-count-mismatch", f"XLS: {len(wb)} sheets in, {len(tabs)} tables out", {"format": "xls", "workbook": repr(per)})
 
     # ---------------- RTF
     from sharepoint2text.parsing.extractors.ms_legacy import rtf_extractor as RTF
@@ -2377,6 +2471,18 @@ def run(ctx):
 
     # ---------------- fixed cases
     fixed_cases(ctx, B, dim_cases)
+
+    # ---------------- the result must not depend on logging level, thread, time zone or cwd
+    import common
+    ecases = env_cases(ctx)
+    for fmt in sorted({c[0] for c in ecases}):
+        common.env_sweep(ctx, "tables:" + fmt, env_result, [c for c in ecases if c[0] == fmt],
+                         variants=tuple(common.ENV_VARIANTS) + ("tz-berlin",), describe=lambda c: f"{c[0]} file of {len(c[1])} bytes")
+    # XLS: the stand-in workbook path (no file): same sweep on the sheet grids
+    def xls_env(case):
+        return repr(xls_run(case)[1:])
+    xls_wbs = [[[[xls_cells(rng) for _ in range(3)] for _ in range(3)] for _ in range(rng.randint(1, 2))] for _ in range(ctx.n(10, 30))]
+    common.env_sweep(ctx, "tables:xls", xls_env, xls_wbs, describe=lambda c: f"xls workbook of {len(c)} sheets")
 
     # ---------------- get_dim and whitespace glue
     b_dim = batch("dim", "corr_dim", "list (list str) * (nat * nat)")
